@@ -507,6 +507,7 @@ func (w *Worker) runPath() {
 		w.sh.mu.Lock()
 		w.sh.res.TimedOut = true
 		w.sh.stop = true
+		w.sh.cond.Broadcast()
 		w.sh.mu.Unlock()
 	}
 }
